@@ -289,5 +289,3 @@ func (r *Run) reflectCall(st *State, fr *Frame, name string, recv Val, args []Va
 	}
 	return nil
 }
-
-func tryReplay(e *Engine, o *Obligation) (bool, string) { return false, "" }
